@@ -348,6 +348,22 @@ func (c *StandardClass) mergeSupers() bool {
 			}
 		}
 	}
+	// A merge can be repeated, when a superclass is defined or redefined
+	// later. Keep the combinations of the class itself and take the inherited
+	// ones from the superclasses as they are now.
+	for k, m := range c.methods {
+		own := m.Combinations[:0]
+		for _, comb := range m.Combinations {
+			if comb.From == c {
+				own = append(own, comb)
+			}
+		}
+		if len(own) == 0 {
+			delete(c.methods, k)
+		} else {
+			m.Combinations = own
+		}
+	}
 	// The inherit list includes the expanded set of inherited supers in the
 	// precedence order.
 	for _, ic := range c.inherit {
